@@ -78,6 +78,18 @@ class NpShim:
             return _to_sarr(obj)
         return np.asarray(obj, dtype=dtype, **kw)
 
+    def asfortranarray(self, a, dtype=None, **kw):
+        if isinstance(a, np.ndarray) and a.dtype == object:
+            r = np.asfortranarray(a.view(np.ndarray))  # same aliasing behaviour as numpy: no copy if already F-contiguous
+            return r.view(SArr)
+        return np.asfortranarray(a, dtype=dtype, **kw)
+
+    def ascontiguousarray(self, a, dtype=None, **kw):
+        if isinstance(a, np.ndarray) and a.dtype == object:
+            r = np.ascontiguousarray(a.view(np.ndarray))
+            return r.view(SArr)
+        return np.ascontiguousarray(a, dtype=dtype, **kw)
+
     def diagflat(self, v, k=0):
         if _contains_sym(v):
             v = _to_sarr(v).reshape(-1)
@@ -190,7 +202,12 @@ class NpShim:
     def linalg(self):
         return _LINALG
 
+    @property
+    def random(self):
+        return RANDOM_PROXY[0] if RANDOM_PROXY[0] is not None else np.random
 
+
+RANDOM_PROXY = [None]  # set to a recording stub of numpy.random by contracts that need the call order
 LINALG_HOOKS = {}  # name -> contract stub used instead of numpy.linalg.<name> on symbolic input
 
 
